@@ -143,9 +143,9 @@ props["C17"] = dict(title="Math built-ins compute their mathematical function; m
 props["C18"] = dict(title="Meaning is invariant under layout, digit script, synonyms, renaming, parentheses",
   bounds="(a) a blank/tab/CR/LF/line comment/block comment inserted at every chunk boundary of sources of n<=2 code points (whole scans, relational) plus C09's step lemma for longer texts; (b) digit-script swap on number chunks of n<=3 (thorough 5) and on numeric strings at run time; (c) both spellings of and/or in the lexer (C09) and in eval(Logical); (d) every name a symbolic code point in the scope programs of C03; (e) eval(Grouping P) = eval(P) for every outcome of P, and the parser yields Grouping for parentheses (C01 template); (f) unselected arms / function bodies / code after return are never evaluated (C04/C05 reference traces), and a declaration added after the থামো / ফেরত that ends a loop body or a block in a function body changes neither output nor failure (VH_deadCode, all names symbolic)",
   assumptions=["whole-program composition of the six families is by the argument of DESIGN §4", "diagnostics quoting source text (renamed identifiers, '(group …)' in the missing-property message) are compared on line and message template only"],
-  quick=[J("lexer","VH_blank",1), J("lexer","VH_blank",2), J("lexer","VH_swap",3), J(I,"VH_logical",0,0), J(I,"VH_logical",0,1), J(I,"VH_grouping",0), J(I,"VH_grouping",1), J(I,"VH_scope",2,1, loop_fuel=300), J("parser","VH_template",2), stmt_quick[0]]+[J(I,"VH_relExpr",w,1,5) for w in (0,1,3)]+[J(I,"VH_deadCode",w, loop_fuel=300) for w in (0,1,2)]+[J(I,"VH_rename")],
-  thorough=[J("lexer","VH_blank",n) for n in (1,2,3)]+[J("lexer","VH_swap",5), J(I,"VH_swapNum",2), J(I,"VH_logical",1,0), J(I,"VH_logical",1,1), J(I,"VH_grouping",0), J(I,"VH_grouping",1), J(I,"VH_grouping",2), J(I,"VH_scope",3,1, loop_fuel=300), J("parser","VH_template",2)]+stmt_thorough+[J(I,"VH_deadCode",w, loop_fuel=300) for w in (0,1,2)]+[J(I,"VH_rename")],
-  only_ids="^(renamed-program-runs|renaming-does-not-change-what-is-printed|dead-code-.*|literal-operand-.*|layout-.*|swap-.*|logical-.*|result-is-.*|right-.*|left-evaluated-once|grouping-.*|read-.*|diagnostic-expected-by-the-scope-model|every-expected-read-happened|scope-error-reported|tree-is-the-reference-tree|evaluation-sequence-as-reference|evaluations-match-reference)$")
+  quick=[J("lexer","VH_blank",1), J("lexer","VH_blank",2), J("lexer","VH_swap",3), J(I,"VH_logical",0,0), J(I,"VH_logical",0,1), J(I,"VH_grouping",0), J(I,"VH_grouping",1), J(I,"VH_scope",2,1, loop_fuel=300), J("parser","VH_template",2), stmt_quick[0]]+[J(I,"VH_relExpr",w,1,5) for w in (0,1,3)]+[J(I,"VH_deadCode",w, loop_fuel=300) for w in (0,1,2)]+[J(I,"VH_rename"), J(I,"VH_parenProgram")],
+  thorough=[J("lexer","VH_blank",n) for n in (1,2,3)]+[J("lexer","VH_swap",5), J(I,"VH_swapNum",2), J(I,"VH_logical",1,0), J(I,"VH_logical",1,1), J(I,"VH_grouping",0), J(I,"VH_grouping",1), J(I,"VH_grouping",2), J(I,"VH_scope",3,1, loop_fuel=300), J("parser","VH_template",2)]+stmt_thorough+[J(I,"VH_deadCode",w, loop_fuel=300) for w in (0,1,2)]+[J(I,"VH_rename"), J(I,"VH_parenProgram")],
+  only_ids="^(parenthesised-.*|parentheses-.*|renamed-program-runs|renaming-does-not-change-what-is-printed|dead-code-.*|literal-operand-.*|layout-.*|swap-.*|logical-.*|result-is-.*|right-.*|left-evaluated-once|grouping-.*|read-.*|diagnostic-expected-by-the-scope-model|every-expected-read-happened|scope-error-reported|tree-is-the-reference-tree|evaluation-sequence-as-reference|evaluations-match-reference)$")
 
 # ---------------- C19 / C20 ----------------
 props["C19"] = dict(title="Exit status and output streams classify every run correctly",
@@ -160,9 +160,9 @@ props["C20"] = dict(title="In the REPL a failed line never affects later lines; 
 
 # ---------------- C07: union of panic obligations ----------------
 props["C07"] = dict(title="No program can make the interpreter terminate abnormally",
-  bounds="every panic obligation (index/slice bounds, nil dereference, failed type assertion, comparing uncomparable values, negative shift count, nil map write, integer division by zero, explicit panic) met on every path of every harness of every other property at its quick bound (thorough: the thorough bound for C02, C09, C10, C14, C15, C17, C19, C20; the other properties' thorough checks evaluate their own panic obligations themselves — every check counts a panic as a violation)",
+  bounds="every panic obligation (index/slice bounds, nil dereference, failed type assertion, comparing uncomparable values, negative shift count, nil map write, integer division by zero, explicit panic) met on every path of every harness of every other property at its quick bound (thorough: the thorough bound for C02, C09, C10, C14, C15, C17, C19, C20; the other properties' thorough checks evaluate their own panic obligations themselves — every check counts a panic as a violation; the token-sequence, layout and long concrete harnesses are left out of the union for the same reason)",
   assumptions=["unbounded user recursion ends in a host stack overflow: excluded by the property's domain", "fmt on a self-containing slice/map is modelled as what it is: unbounded recursion ending in a runtime abort (VH_cyclic)", "allocation failure and faults inside stubbed library code are outside"],
-  quick=[J(I,"VH_cyclic",w) for w in range(4)], thorough=[J(I,"VH_cyclic",w) for w in range(4)], panics_only=True, include=["C02","C09","C10","C14","C15","C17","C19","C20"], include_quick=["C01","C03","C04","C05","C06","C08","C11","C12","C13","C16","C18"])
+  quick=[J(I,"VH_cyclic",w) for w in range(4)], thorough=[J(I,"VH_cyclic",w) for w in range(4)], panics_only=True, include=["C02","C09","C10","C14","C15","C17","C19","C20"], include_quick=["C01","C03","C04","C05","C06","C08","C11","C12","C13","C16","C18"], exclude_included="^(VH_manyCalls|VH_template|VH_long|VH_ops|VH_holes|VH_free|VH_mutate|VH_reserved|VH_replDeep|VH_replLong|VH_blank|VH_swap|VH_deadCode|VH_scopeLate)$")
 
 props["C02"]["quick"] += [J(I,"VH_powWhole",k) for k in range(6)] + [J(I,"VH_concatTwice",0), J(I,"VH_concatTwice",1)]
 props["C02"]["thorough"] += [J(I,"VH_powWhole",k) for k in range(6)] + [J(I,"VH_concatTwice",0), J(I,"VH_concatTwice",1)]
